@@ -36,7 +36,7 @@ def gen_scenario(rng, focus):
     for i in range(n):
         if i == browse_at:
             evs.append(('browse', t, rng.choice([20, 57, 120])))
-            t += rng.choice([1, 7, 300, 1500, 16003])
+            t += rng.choice([1, 7, 300, 1500, 16003])      # (time between the browser's creation and the next datagram)
         typ = rng.choice(types + ([T2] if rng.random() < 0.2 else []))
         recs = []
         for _ in range(rng.choice([1, 1, 2, 3])):
@@ -65,7 +65,8 @@ def gen_scenario(rng, focus):
         if focus == 'C10':
             t += rng.choice([3, 501, 1003, 9001, 20007, 60011, 400003, 843751 + 3, 900001, 1125007, 3375000 + 7, 4000003])
         else:
-            t += rng.choice([0, 1, 999, 1000, 1001, 2003, 9999, 10001, 20007, 119999, 120001, 1125001, 4500001])
+            # (600 s and 3000 s: past half of a pointer's 1125 s / 4500 s lifetime but before its end)
+            t += rng.choice([0, 1, 999, 1000, 1001, 2003, 9999, 10001, 20007, 119999, 120001, 600001, 1125001, 3000001, 4500001])
     if browse_at >= n:
         evs.append(('browse', t, 20))
     horizon = t + rng.choice([1000, 30000, 5000000] if focus == 'C04' else [20000, 2000000, 6000000])
@@ -225,6 +226,7 @@ def run_scenario(sc):
                 out['t0'] = t0
                 for ev in sc['events']:
                     await sim.sleep_until(t0 + ev[1])
+                    check_live('quiescence before the next event')      # (also right after the browser was created and replayed the cache)
                     if ev[0] == 'browse':
                         sim.randoms['first_query_delay'] = [ev[2]]
                         from zeroconf import DNSQuestionType
@@ -251,6 +253,7 @@ def run_scenario(sc):
                             out.setdefault('suppressed', []).append(ev[1])
                         check_live('datagram')
                 await sim.sleep_until(t0 + sc['horizon'])
+                check_live('end of the history')
                 br = state['browser']
                 nr = br.query_scheduler._next_run
                 out['timer_armed'] = nr is not None and not nr.cancelled()
